@@ -5,8 +5,8 @@ A case is {"kind": k, "rounds": [...]} ; the rounds are rounds of the `handler` 
 (prev, cur) chosen among earlier rounds' result traces.
 
 kind 1  three states a, b, c of one instruction merged in every order / grouping the laws mention
-        (all pairs of state kinds with equal and different payloads; quick: random third state,
-        thorough: all triples)
+        (pairs of state kinds with equal and different payloads; quick: all canon / ap pairs and a random
+        half of the 196 call pairs with a random third state, thorough: all triples)
 kind 2  one trace t built by an instruction tree (par / fold / call / ap / canon, lib/handlergen
         skeletons) and re-driven over (t, t), (t, nothing), (nothing, t) by the same tree
 kind 3  two traces of one fold-free script at different progress (each cut where an honest
@@ -80,13 +80,11 @@ def state_cases(rng, exhaustive):
                 if exhaustive:
                     for c in group:
                         cases.append(triple_case(a, b, c))
-                else:
+                elif len(group) < 10 or rng.random() < 0.55:
                     cases.append(triple_case(a, b, rng.choice(group)))
-                    if rng.random() < 0.35:
-                        cases.append(triple_case(a, b, rng.choice(group)))
     # correspondence only: different instruction kinds against each other, malformed ap states
     everything = [s for g in all_state_groups() for s in g] + [st_ap(g) for g in AP_MALFORMED] + [["st_par", 1, 0], ["st_fold", []]]
-    n = 120 if not exhaustive else 600
+    n = 40 if not exhaustive else 600
     for _ in range(n):
         a, b, c = rng.choice(everything), rng.choice(everything), rng.choice(everything)
         if a[0] == b[0] == c[0] and a[0] != "st_ap":
@@ -314,14 +312,92 @@ def progress_case(rng):
             "key": ["progress", o0, o1]}
 
 
+def gen_body(rng, depth, ids):
+    """fold body whose every instruction leaves a state whatever is known: calls and canons under pars"""
+    ids["cid"] += 1
+    if depth > 0 and rng.random() < 0.6:
+        return [("par", gen_body(rng, depth - 1, ids), gen_body(rng, depth - 1, ids))]
+    if rng.random() < 0.2:
+        return [("canon", "cn%d" % ids["cid"])]
+    return [("call", "c%d" % ids["cid"], rng.choice(["scalar", "scalar", "stream", "unused"]))]
+
+
+def drive_body(nodes, known, peer, ops, replay, suffix):
+    for nd in nodes:
+        if nd[0] == "call":
+            cid = nd[1] + suffix
+            if replay:
+                ops.append(["call_auto", ["sent", peer], False])
+            elif cid in known:
+                ops.append(["call_auto", [nd[2], cid, 0] if nd[2] == "stream" else [nd[2], cid], False])
+            else:
+                ops.append(["call_auto", ["sent", peer], False])
+        elif nd[0] == "canon":
+            cid = nd[1] + suffix
+            ops.append(["canon_auto", ["cexec", cid] if (cid in known and not replay) else ["csent", peer], False])
+        else:
+            ops.append(["par_start"])
+            drive_body(nd[1], known, peer, ops, replay, suffix)
+            ops.append(["par_end", True])
+            drive_body(nd[2], known, peer, ops, replay, suffix)
+            ops.append(["par_end", False])
+
+
+def body_ids(nodes, suffix, acc):
+    for nd in nodes:
+        if nd[0] in ("call", "canon"):
+            acc.append(nd[1] + suffix)
+        else:
+            body_ids(nd[1], suffix, acc); body_ids(nd[2], suffix, acc)
+    return acc
+
+
+def fold_progress_case(rng):
+    """kind 3 with a stream fold: the values of the stream are results of calls that BOTH traces hold (executed,
+    one generation), the fold visits them in one generation; the bodies differ in what is known.  The lore of the
+    current trace is found through the position mapping of the merged value states (scheme Both)."""
+    ids = {"cid": 0}
+    nvals = rng.choice([1, 2, 3])
+    body = gen_body(rng, rng.choice([0, 1, 2]), ids)
+    everything = []
+    for v in range(nvals):
+        body_ids(body, "_%d" % v, everything)
+    f1, f2 = rng.choice([0.2, 0.5, 0.8]), rng.choice([0.3, 0.6, 1.0])
+    k1 = {c for c in everything if rng.random() < f1}
+    k2 = {c for c in everything if rng.random() < f2}
+
+    def drive(known, peer, replay, gen):
+        ops = []
+        for v in range(nvals):
+            ops.append(["call_auto", ["sent", peer] if replay else ["stream", "val%d" % v, gen], False])
+        ops.append(["fold_start", 1])
+        for v in range(nvals):
+            ops.append(["iter_pos", 1, v])
+            drive_body(body, known, peer, ops, replay, "_%d" % v)
+            ops.append(["iter_end", 1])
+        ops.append(["back", 1])
+        for v in range(nvals - 1):
+            ops.append(["back", 1])
+        ops.append(["gen_end", 1])
+        ops.append(["fold_end", 1])
+        return ops
+    o0, o1, om = drive(k1, "p1", False, 0), drive(k2, "p2", False, 0), drive(k1 | k2, "obs", True, 0)
+    rounds = [rnd(ops=o0), rnd(ops=o1)]
+    for pr, cu in [(0, 1), (1, 0), (2, 1), (2, 0), (2, 2), (2, 3)]:
+        rounds.append({"prev": pr, "cur": cu, "mut_prev": [], "mut_cur": [], "ops": om})
+    return {"kind": 3, "rounds": rounds, "gen": "progress/stream-fold+" + (shape_of(body) or "call"), "key": ["fold-progress", o0, o1]}
+
+
 def gen_cases(rng, tier, escalate=False):
     thorough = tier == "thorough"
     cases = state_cases(rng, exhaustive=thorough or escalate)
-    n2, n3 = (150, 250) if not thorough else (1500, 2500)
+    n2, n3 = (60, 100) if not thorough else (800, 1500)
     if escalate:
         n2, n3 = n2 * 3, n3 * 3
     for _ in range(n2):
         cases.append(replay_case(rng))
     for _ in range(n3):
         cases.append(progress_case(rng))
+    for _ in range(n3 // 3):
+        cases.append(fold_progress_case(rng))
     return cases
